@@ -523,3 +523,111 @@ func c06unsignedRejected(c *an.Ctx) {
 		return len(rs.Results) == 3 && !an.IsNilIdent(g.Info, rs.Results[2])
 	}), "`u` suffix ⇒ error")
 }
+
+func init() {
+	old := All["C06"].Run
+	All["C06"].Run = func(c *an.Ctx) {
+		old(c)
+		c06tagArrayRouteOnlyWhenEnabled(c)
+	}
+	All["C06"].Rules += " R10"
+	addLevel("C06", "A tag value in brackets is split into a tag array only in a database created with the tag-array option: the tag-array index route is entered only under the index builder's EnableTagArray.")
+}
+
+// c06tagArrayRouteOnlyWhenEnabled — C06.R10.  HasTagArray() is purely syntactic (a tag value that
+// starts with '[' and ends with ']'); in a database without the option such a value is an ordinary
+// string and must be stored verbatim.  Every call of the tag-array index route is therefore
+// dominated by the index builder's EnableTagArray (directly or through EnabledTagArray()).
+func c06tagArrayRouteOnlyWhenEnabled(c *an.Ctx) {
+	const T = "engine/index/tsi"
+	r := c.Rule("C06.R10", "K-GUARD", T+":createIndexesIfNotExistsWithTagArray is called only when EnableTagArray holds")
+	route := obj(r, T+":MergeSetIndex.createIndexesIfNotExistsWithTagArray")
+	if route == nil {
+		return
+	}
+	n := 0
+	seen := map[*an.FuncSrc]bool{}
+	for _, cs := range c.P.CallsTo(route) {
+		if cs.Caller == nil || seen[cs.Caller] || cs.InLit {
+			continue
+		}
+		seen[cs.Caller] = true
+		f := c.P.Fn(cs.Caller)
+		if f == nil {
+			continue
+		}
+		n++
+		f.Guarded(r, f.Find(an.MCall("createIndexesIfNotExistsWithTagArray", route)), "tag-array route only when the database enabled tag arrays", an.AtomLike(`\.(EnableTagArray|EnabledTagArray\(\))$`, true))
+	}
+	r.AddSites(n)
+	r.Floor(2, "callers of the tag-array index route")
+}
+
+func init() {
+	old := All["C06"].Run
+	All["C06"].Run = func(c *an.Ctx) {
+		old(c)
+		c06rowsArenasNotRecycled(c)
+	}
+	All["C06"].Rules += " R11"
+	addLevel("C06", "The rows of a /query answer are not overwritten by the next query: a recycled RowsGenerator starts with fresh arenas, because the rows carved out of the old ones are encoded after the generator went back to its pool.")
+}
+
+// c06rowsArenasNotRecycled — C06.R11.  RowsGenerator carves rows, value cells, string bytes and
+// column names out of slice fields and hands them to the HTTP layer, which encodes them after the
+// pipeline (and with it the generator) was released to rowsGeneratorPool.  Reset — run on every
+// generator drawn from the pool — must therefore give each slice field new backing memory.
+func c06rowsArenasNotRecycled(c *an.Ctx) {
+	const E = "engine/executor"
+	r := c.Rule("C06.R11", "K-OWNERSHIP", E+":(*RowsGenerator).Reset gives every slice field new backing memory (make / nil), never a truncation of the old one")
+	reset := c.P.FuncSpec(E + ":RowsGenerator.Reset")
+	T := obj(r, E+":RowsGenerator")
+	if reset == nil || T == nil {
+		if reset == nil {
+			r.Unresolved(E + ":RowsGenerator.Reset")
+		}
+		return
+	}
+	st, ok := T.Type().Underlying().(*types.Struct)
+	if !ok {
+		r.Unresolved(E + ":RowsGenerator struct")
+		return
+	}
+	n := 0
+	for i := 0; i < st.NumFields(); i++ {
+		fld := st.Field(i)
+		if _, ok := fld.Type().Underlying().(*types.Slice); !ok {
+			continue
+		}
+		n++
+		fresh, bad := false, ast.Node(nil)
+		for _, s := range c.P.StoresTo(fld) {
+			if s.Caller != reset || s.How != "assign" {
+				continue
+			}
+			switch rhs := ast.Unparen(s.Rhs).(type) {
+			case *ast.CallExpr:
+				if id, ok := rhs.Fun.(*ast.Ident); ok && id.Name == "make" {
+					fresh = true
+					continue
+				}
+				bad = s.Node
+			case *ast.Ident:
+				if rhs.Name == "nil" {
+					fresh = true
+					continue
+				}
+				bad = s.Node
+			default:
+				bad = s.Node
+			}
+		}
+		if bad != nil {
+			r.Fail("Reset: "+fld.Name()+" reuses memory", c.P.Pos(bad.Pos()), "(*RowsGenerator).Reset keeps the backing memory of %s: rows of the previous query that still wait to be encoded are overwritten by the next query that draws this generator from the pool", fld.Name())
+		} else if !fresh {
+			r.Fail("Reset: "+fld.Name()+" not renewed", c.P.Pos(reset.Decl.Pos()), "(*RowsGenerator).Reset does not give %s new backing memory", fld.Name())
+		}
+	}
+	r.AddSites(n)
+	r.Floor(4, "slice fields of RowsGenerator")
+}
